@@ -27,6 +27,8 @@ pub struct ShardResult {
     pub excluded: BTreeMap<String, u64>,
     pub violation: Option<Violation>,
     pub exhaustive_completed: bool,
+    #[serde(default)]
+    pub slow: Vec<(f64, String)>,
 }
 
 #[derive(Debug, Clone, Serialize, Deserialize)]
@@ -120,7 +122,27 @@ enum Verdict {
     Violation(Failure),
 }
 
+thread_local! {
+    /// slowest cases of this shard (reporting only; never influences a verdict)
+    static SLOW: RefCell<Vec<(f64, String)>> = const { RefCell::new(Vec::new()) };
+}
+
 fn judge<P: Property>(case: &P::Case, known_ids: &BTreeSet<String>) -> Verdict {
+    let t0 = Instant::now();
+    let v = judge_inner::<P>(case, known_ids);
+    let dt = t0.elapsed().as_secs_f64();
+    if dt > 0.25 {
+        SLOW.with(|s| {
+            let mut s = s.borrow_mut();
+            if s.len() < 3 {
+                s.push((dt, clip(&serde_json::to_string(case).unwrap_or_default(), 400)));
+            }
+        });
+    }
+    v
+}
+
+fn judge_inner<P: Property>(case: &P::Case, known_ids: &BTreeSet<String>) -> Verdict {
     match eval::<P>(case) {
         Ok(o) => Verdict::Pass(o),
         Err(f) => match catch(|| P::known(case, &f)) {
@@ -279,6 +301,7 @@ pub fn run_child<P: Property>(tier: Tier, seed: u64, shard: usize, nshards: usiz
     let _ = &s.known_ids;
     s.res.nontrivial = s.nontrivial.iter().cloned().collect();
     s.res.excluded = take_excluded();
+    s.res.slow = SLOW.with(|x| x.borrow().clone());
     s.res.violation = violation.into_inner();
     std::fs::write(out_path, serde_json::to_vec(&s.res).unwrap()).expect("write shard result");
 }
@@ -439,6 +462,11 @@ pub fn run_parent<P: Property>(args: &ParentArgs, out: &mut dyn FnMut(String)) -
                             merged.samples.push(s);
                         }
                     }
+                    for sl in r.slow {
+                        if merged.slow.len() < 6 {
+                            merged.slow.push(sl);
+                        }
+                    }
                     if let Some(v) = r.violation {
                         n_violating_shards += 1;
                         if first_violation.is_none() {
@@ -541,6 +569,7 @@ pub fn run_parent<P: Property>(args: &ParentArgs, out: &mut dyn FnMut(String)) -
             "regression_inputs_replayed": replayed,
             "shards": NSHARDS,
             "inconclusive": inconclusive,
+            "slow_cases_over_250ms": merged.slow.iter().map(|(t, c)| serde_json::json!({"seconds": (t * 100.0).round() / 100.0, "case": c})).collect::<Vec<_>>(),
         },
         "assumptions": P::assumptions(),
         "wall_s": (wall * 1000.0).round() / 1000.0,
